@@ -47,7 +47,7 @@ func ruleC02(c *Check) {
 	c.escrowInventory("C02.7")
 	c.feeWriters("C02")
 	c.slashTriggerOnly("C02.1")
-	c.schemaPredicate("C02.1", "types.ValidateResponseOutput", "types.OutputSchema")
+	c.schemaPredicate("C02.1", c.typesName("ValidateResponseOutput"), "types.OutputSchema")
 	c.paramGettersExact("C02.3", "KeyServiceFeeTax", "KeySlashFraction")
 }
 
@@ -79,6 +79,8 @@ func ruleC13(c *Check) {
 	c.withdrawAddressWriters("C13.4")
 	c.earningsDeleters("C13.6")
 	c.handlerAddressArgs("C13.7")
+	// withdrawal addresses survive export / import: the export collects every record
+	c.genesisCoverage("C13.4")
 	c.keyGrammar("C13.5", map[string]bool{"0x18": true, "0x19": true, "0x07": true, "0x05": true, "0x04": true})
 }
 
@@ -103,7 +105,7 @@ func (c *Check) slashTriggerOnly(rule string) {
 		af := pa.AllFacts()
 		mal := false
 		for _, fa := range af {
-			if fa.Neg && fa.T.Op == "ok" && fa.T.A[0].Op == "types.ValidateResponseOutput" {
+			if fa.Neg && fa.T.Op == "ok" && fa.T.A[0].Op == c.typesName("ValidateResponseOutput") {
 				if _, ne := hasFact(af, "(nonempty "+fa.T.A[0].A[0].String()+")", false); ne && isParamTerm(fa.T.A[0].A[0]) {
 					mal = true
 				}
@@ -204,14 +206,32 @@ func (c *Check) filterRules(prefix string) {
 	prov := "(elem " + roles["Providers"] + ")"
 	B := fmt.Sprintf("(res 0 (%s %s %s))", gBinding.Name, roles["ServiceName"], prov)
 	found := fmt.Sprintf("(res 1 (%s %s %s))", gBinding.Name, roles["ServiceName"], prov)
-	price := fmt.Sprintf("(res 0 (%s %s %s))", u.PR.Name, roles["Consumer"], B)
+	prCall := fmt.Sprintf("(%s %s %s)", u.PR.Name, roles["Consumer"], B)
+	// the routine may take the binding's identifying fields instead of the binding
+	for _, pa := range c.P.PathsOf(f) {
+		for _, ev := range pa.Events {
+			if ev.Kind == EvCall && ev.CI.fn == u.PR && ev.Loop != nil {
+				var as []string
+				for _, a := range ev.CI.args {
+					if !a.IsAt("ctx") && !a.IsAt("K") {
+						as = append(as, a.String())
+					}
+				}
+				alt := "(.ServiceBinding.ServiceName " + B + ") (.ServiceBinding.Provider " + B + ")"
+				if strings.Join(as, " ") == roles["Consumer"]+" "+alt {
+					prCall = fmt.Sprintf("(%s %s %s)", u.PR.Name, roles["Consumer"], alt)
+				}
+			}
+		}
+	}
+	price := "(res 0 " + prCall + ")"
 	expect := map[string]bool{
 		found:                                   true,
 		"(.ServiceBinding.Available " + B + ")": true,
 		normFact(Fact{T: mk("<=", parseTerm("(.ServiceBinding.QoS "+B+")"), mk("conv", atom("uint64"), parseTerm(roles["Timeout"])))}).String(): true,
 		"(sdk.Coins.IsAllLTE " + price + " " + roles["ServiceFeeCap"] + ")":                                                                     true,
 	}
-	neutral := "(ok (" + u.PR.Name + " " + roles["Consumer"] + " " + B + "))"
+	neutral := "(ok " + prCall + ")"
 	nAppend := 0
 	var problems []string
 	for _, pa := range c.P.PathsOf(f) {
@@ -430,20 +450,28 @@ func (c *Check) priceSkeleton(rule string) {
 		c.undecided(rule, "getter:pricing", token.NoPos, "pricing getter not found")
 		return
 	}
-	var consumerP, bindingP string
-	for i, pr := range f.Params {
-		if typeName(pr.Type()) == "sdk.AccAddress" {
-			consumerP = fmt.Sprintf("P%d", i)
+	// roles of the routine's parameters, read off its own store reads: the pricing of (service, provider) and the
+	// volume of (consumer, service, provider) — whether the binding is passed whole or as its two identifying fields
+	var consumerP, name, prov string
+	for _, e := range c.P.SummaryOf(f).Effs {
+		if e.Kind != "store" || e.Op != "Get" {
+			continue
 		}
-		if namedStruct(pr.Type()) == "ServiceBinding" {
-			bindingP = fmt.Sprintf("P%d", i)
+		k := keyArgs(e)
+		switch {
+		case e.Family == "0x06" && len(k) == 2:
+			name, prov = k[0].String(), k[1].String()
+		case e.Family == "0x17" && len(k) == 3:
+			consumerP = k[0].String()
 		}
 	}
-	name := "(.ServiceBinding.ServiceName " + bindingP + ")"
-	prov := "(.ServiceBinding.Provider " + bindingP + ")"
+	if name == "" || consumerP == "" {
+		c.undecided(rule, unitConstruct(f, "roles"), f.Body.Pos(), "the pricing routine's reads of the parsed pricing and of the request volume were not found")
+		return
+	}
 	pricing := fmt.Sprintf("(%s %s %s)", gPricing.Name, name, prov)
-	dt := "(types.GetDiscountByTime " + pricing + " BlockTime)"
-	dv := fmt.Sprintf("(types.GetDiscountByVolume %s (%s %s %s %s))", pricing, c.nVolume(), consumerP, name, prov)
+	dt := "(" + c.typesName("GetDiscountByTime") + " " + pricing + " BlockTime)"
+	dv := fmt.Sprintf("(%s %s (%s %s %s %s))", c.typesName("GetDiscountByVolume"), pricing, c.nVolume(), consumerP, name, prov)
 	n := 0
 	var problems []string
 	for _, er := range c.expandedReturns(f) {
@@ -533,7 +561,7 @@ func sortStrings(s []string) []string { sort.Strings(s); return s }
 
 // timeWindow (C07.2): start inclusive, end exclusive.
 func (c *Check) timeWindow(rule string) {
-	f := c.mustFn(rule, "types.GetDiscountByTime")
+	f := c.mustFn(rule, c.typesName("GetDiscountByTime"))
 	if f == nil {
 		return
 	}
